@@ -15,7 +15,7 @@ import common
 PROP = "C03"
 HEADER = "From Coq Require Import ZArith List.\nImport ListNotations.\nFrom IBL.C03 Require Import Run."
 # "Axioms" is the header line of Print Assumptions, which common.print_assumptions picks up as a name
-WHITELIST = sorted(common.STDLIB_AXIOMS) + ["Axioms"]
+WHITELIST = sorted(common.STDLIB_AXIOMS)
 TRUSTED = [
     "Coq 8.16.1 kernel + vm_compute (no native_compute); Flocq 4.1 BinarySingleNaN as the definition of IEEE-754 "
     "binary32/binary64 arithmetic; roundtrip theorems use the four standard-library axioms Flocq inherits "
@@ -538,7 +538,13 @@ def build_data(case):
 
 
 def run(ctx):
-    common.proof_obligations(ctx, whitelist=WHITELIST)
+    common.proof_obligations(
+        ctx, whitelist=WHITELIST,
+        # the ten exhaustive int16 sweeps are compiled and kernel-checked by coqc (vm_compute) on every build;
+        # coqchk would re-evaluate them without the VM (tens of minutes each), so the independent re-check of
+        # the thorough tier takes those ten modules as given and re-checks everything else
+        coqchk_admit=["IBL.C03.Rt_%s_%s" % (g, m) for g in ("050", "060", "062") for m in ("512", "2048", "8192")]
+        + ["IBL.C03.Rt_sync"])
     cases = gen_cases(ctx)
     inputs, outputs, descr = [], [], []
     kernel_terms = []
